@@ -216,6 +216,7 @@ func checkC14(c *Ctx, r *Report) {
 			r.bad("R3", key, c.instrPos(w), "bytes are written to a connection outside the sender functions")
 		}
 	}
+	c.checkConnEscapes(r, "R3", "gateway", m.mqSenders)
 }
 
 // bufferField finds the handler field holding the sleep buffer: a struct
@@ -266,6 +267,7 @@ func checkC11(c *Ctx, r *Report) {
 			r.bad("R1", key, c.instrPos(w), "a datagram is written to a connection outside the sender function (bypasses the sleep buffer)")
 		}
 	}
+	c.checkConnEscapes(r, "R1", "gateway", m.mqSenders)
 	for s := range m.snSenders {
 		r.fn(s)
 		for _, st := range []int64{0, 1, 2, 3} {
